@@ -35,3 +35,12 @@ m = {
 }
 json.dump(m, open(os.path.join(here, "MANIFEST.json"), "w"), indent=1)
 print("MANIFEST.json: %d checks, %d not_applicable" % (len(checks), len(na)))
+
+# KNOWN_FINDINGS.json = union of the per-property fragments known_findings/Cxx.json (+ C01's entry)
+kf = {"findings": [], "fixed": ["fixed: property=C01 fcd3ad3 copy.deepcopy of a constraint-violating ConstrainedFitness (values unassigned, constraint_violation=[True]) dropped constraint_violation, so the clone compared != to its original"]}
+for f in sorted(glob.glob(os.path.join(here, "known_findings", "C*.json"))):
+    d = json.load(open(f))
+    kf["findings"] += d.get("findings", [])
+    kf["fixed"] += d.get("fixed", [])
+json.dump(kf, open(os.path.join(here, "KNOWN_FINDINGS.json"), "w"), indent=1)
+print("KNOWN_FINDINGS.json: %d findings, %d fixed" % (len(kf["findings"]), len(kf["fixed"])))
